@@ -10,17 +10,17 @@ import (
 // real engine receives the JavaScript source this file prints from them (minimal parentheses by the ECMAScript grammar).
 
 // ---- expression constructors ----
-func eNum(v string) J           { return J{"t": "num", "v": v} }
-func eStr(v string) J           { return J{"t": "str", "v": v} }
-func eBool(v bool) J            { return J{"t": "bool", "v": v} }
-func eNull() J                  { return J{"t": "null"} }
-func eId(n string) J            { return J{"t": "id", "n": n} }
-func eBin(op string, l, r J) J  { return J{"t": "bin", "op": op, "l": l, "r": r} }
-func eUn(op string, e J) J      { return J{"t": "un", "op": op, "e": e} }
-func eCond(c, a, b J) J         { return J{"t": "cond", "c": c, "a": a, "b": b} }
-func eArr(es ...interface{}) J  { return J{"t": "arr", "es": nz(es)} }
-func eDot(e J, n string) J      { return J{"t": "dot", "e": e, "n": n} }
-func eIdx(e, i J) J             { return J{"t": "idx", "e": e, "i": i} }
+func eNum(v string) J               { return J{"t": "num", "v": v} }
+func eStr(v string) J               { return J{"t": "str", "v": v} }
+func eBool(v bool) J                { return J{"t": "bool", "v": v} }
+func eNull() J                      { return J{"t": "null"} }
+func eId(n string) J                { return J{"t": "id", "n": n} }
+func eBin(op string, l, r J) J      { return J{"t": "bin", "op": op, "l": l, "r": r} }
+func eUn(op string, e J) J          { return J{"t": "un", "op": op, "e": e} }
+func eCond(c, a, b J) J             { return J{"t": "cond", "c": c, "a": a, "b": b} }
+func eArr(es ...interface{}) J      { return J{"t": "arr", "es": nz(es)} }
+func eDot(e J, n string) J          { return J{"t": "dot", "e": e, "n": n} }
+func eIdx(e, i J) J                 { return J{"t": "idx", "e": e, "i": i} }
 func eCall(f J, a ...interface{}) J { return J{"t": "call", "f": f, "args": nz(a)} }
 func eTpl(parts ...interface{}) J   { return J{"t": "tpl", "parts": nz(parts)} }
 func eObj(kv ...interface{}) J { // k1, v1, k2, v2 ...
@@ -44,20 +44,22 @@ func nTag(name string, inline bool, attrs []interface{}, kids ...interface{}) J 
 	return J{"t": "tag", "name": name, "inline": inline, "attrs": nz(attrs), "ablocks": []interface{}{}, "kids": nz(kids)}
 }
 func nAttr(name string, val J, esc bool) J { return J{"name": name, "val": val, "esc": esc} }
-func nBuf(e J, esc bool) J                { return J{"t": "code", "buffer": true, "esc": esc, "inline": true, "e": e} }
-func nRaw(stmts ...interface{}) J         { return J{"t": "code", "buffer": false, "inline": false, "stmts": nz(stmts)} }
-func sVar(n string, e J) J                { return J{"t": "var", "n": n, "e": e} }
-func sAssign(l, e J) J                    { return J{"t": "assign", "l": l, "e": e} }
-func sInc(n string) J                     { return J{"t": "inc", "n": n} }
-func sExpr(e J) J                         { return J{"t": "expr", "e": e} }
+func nBuf(e J, esc bool) J                 { return J{"t": "code", "buffer": true, "esc": esc, "inline": true, "e": e} }
+func nRaw(stmts ...interface{}) J {
+	return J{"t": "code", "buffer": false, "inline": false, "stmts": nz(stmts)}
+}
+func sVar(n string, e J) J { return J{"t": "var", "n": n, "e": e} }
+func sAssign(l, e J) J     { return J{"t": "assign", "l": l, "e": e} }
+func sInc(n string) J      { return J{"t": "inc", "n": n} }
+func sExpr(e J) J          { return J{"t": "expr", "e": e} }
 func nIf(test J, thn []interface{}, els interface{}) J {
 	return J{"t": "if", "test": test, "then": nz(thn), "else": els}
 }
 func nEach(val, key string, obj J, kids ...interface{}) J {
 	return J{"t": "each", "val": val, "key": key, "obj": obj, "kids": nz(kids)}
 }
-func nWhile(test J, kids ...interface{}) J { return J{"t": "while", "test": test, "kids": nz(kids)} }
-func nCase(e J, whens ...interface{}) J    { return J{"t": "case", "e": e, "whens": nz(whens)} }
+func nWhile(test J, kids ...interface{}) J       { return J{"t": "while", "test": test, "kids": nz(kids)} }
+func nCase(e J, whens ...interface{}) J          { return J{"t": "case", "e": e, "whens": nz(whens)} }
 func nWhen(e interface{}, kids ...interface{}) J { return J{"e": e, "kids": nz(kids)} }
 func nMixin(name string, params []interface{}, kids ...interface{}) J {
 	return J{"t": "mixin", "name": name, "params": nz(params), "kids": nz(kids)}
@@ -65,8 +67,8 @@ func nMixin(name string, params []interface{}, kids ...interface{}) J {
 func nCall(name string, args []interface{}, attrs []interface{}, kids ...interface{}) J {
 	return J{"t": "call", "name": name, "args": nz(args), "attrs": nz(attrs), "kids": nz(kids)}
 }
-func nBlock() J            { return J{"t": "block"} }
-func nDoctype(v string) J  { return J{"t": "doctype", "v": v} }
+func nBlock() J           { return J{"t": "block"} }
+func nDoctype(v string) J { return J{"t": "doctype", "v": v} }
 
 // ---- JavaScript printer ----
 
@@ -121,6 +123,8 @@ func jsQuote(s string) string {
 		default:
 			if r < 0x20 {
 				fmt.Fprintf(&b, `\x%02x`, r)
+			} else if r == 0x2028 || r == 0x2029 {
+				fmt.Fprintf(&b, `\u%04x`, r) // line terminators: not allowed raw inside an ES5 string literal
 			} else {
 				b.WriteRune(r)
 			}
@@ -287,7 +291,8 @@ func pugNodes(n J) []interface{} {
 		for _, ab := range asList(n["ablocks"]) {
 			abs = append(abs, J{"type": "AttributeBlock", "val": ab})
 		}
-		return []interface{}{J{"type": "Tag", "name": n["name"], "isInline": n["inline"], "selfClosing": false,
+		sc, _ := n["sc"].(bool) // explicit `tag/` in the pug source: the AST carries selfClosing = true
+		return []interface{}{J{"type": "Tag", "name": n["name"], "isInline": n["inline"], "selfClosing": sc,
 			"attrs": pugAttrs(asList(n["attrs"])), "attributeBlocks": abs, "block": pugBlock(asList(n["kids"]))}}
 	case "code":
 		if n["buffer"].(bool) {
